@@ -336,6 +336,51 @@ func c11(c *Ctx) {
 		r.Check(deleted, "R11.F", sprintf("retry-marker#%d:forgotten", i+1), c.pos(s.Pos()),
 			"the notified entry is not removed from responseChannels: the next rotation sends to a channel nobody reads and the receive loop blocks")
 	}
+	// ---- R11.N: the rejected request is notified on every path through the arm ----------------------
+	r.Rule("R11.N", "in the bad_server_salt arm, when a waiter is registered under bad_msg_id, every path to the end of the arm passes the retry-marker send", 1)
+	if len(sends) > 0 {
+		// the block where the arms join again: the seq_no parity test
+		var join *ssa.BasicBlock
+		for _, i := range an.Ifs(pr) {
+			cd, ok := an.Classify(i)
+			if ok && cd.Kind == "eq" {
+				if bo, isBin := cd.X.(*ssa.BinOp); isBin && bo.Op.String() == "&" && strings.Contains(tr.OriginString(bo.X), "messages.Common).GetSeqNo") {
+					join = i.Block()
+				}
+			}
+		}
+		if join == nil {
+			r.Undecide("R11.N", "notify:every-path", c.pos(pr.Pos()), "the join point after the dispatch (seq_no parity test) was not found")
+		} else {
+			cut := map[an.Edge]bool{}
+			for _, s := range sends {
+				for _, p := range s.Block().Preds {
+					for si, sc := range p.Succs {
+						if sc == s.Block() {
+							cut[an.Edge{From: p, Succ: si}] = true
+						}
+					}
+				}
+			}
+			reach := an.ReachWith(pr, cut, func(i *ssa.If) (int, bool) {
+				cd, ok := an.Classify(i)
+				if !ok {
+					return 0, false
+				}
+				switch {
+				case cd.Kind == "assert" && strings.Contains(tr.OriginString(cd.X), "DecodeUnknownObject#0"):
+					return cd.EdgeWhen(typeString(cd.Assert.AssertedType) == "*objects.BadServerSalt").Succ, true
+				case cd.Kind == "nil" && strings.Contains(tr.OriginString(cd.X), "DecodeUnknownObject#1"):
+					return cd.EdgeWhen(true).Succ, true
+				case cd.Kind == "bool" && strings.Contains(tr.OriginString(cd.X), "SyncIntObjectChan).Get#1"):
+					return cd.EdgeWhen(true).Succ, true // a waiter is registered
+				}
+				return 0, false
+			})
+			r.Check(!reach[join], "R11.N", "notify:every-path", c.pos(sends[0].Pos()), "with a waiter registered under bad_msg_id, the end of the bad_server_salt arm is reachable without sending it the retry marker (an early exit from the arm): that caller waits for ever")
+		}
+	}
+
 	// ---- R11.R ----------------------------------------------------------------------------------
 	if mk := c.fn("R11.R", load.RootMod, "*MTProto", "makeRequest"); mk != nil {
 		ok := false
